@@ -1294,12 +1294,19 @@ namespace igris
         new ((void *)ptr) T(igris::move(other));
     }
 
+    // the address of an object even if its type overloads unary operator&
+    template <class T> T *addressof(T &ref)
+    {
+        return reinterpret_cast<T *>(
+            &const_cast<char &>(reinterpret_cast<const volatile char &>(ref)));
+    }
+
     template <class InputIterator, class EndIterator>
     void array_destructor(InputIterator first, EndIterator last)
     {
         while (first != last)
         {
-            igris::destructor(&*first);
+            igris::destructor(igris::addressof(*first));
             ++first;
         }
     }
@@ -1309,7 +1316,7 @@ namespace igris
     {
         while (first != last)
         {
-            igris::constructor(&*first, args...);
+            igris::constructor(igris::addressof(*first), args...);
             ++first;
         }
     }
